@@ -117,3 +117,16 @@ func c18KnownNonNil(b *ssa.BasicBlock, v ssa.Value) bool {
 	}
 	return false
 }
+
+// c18KnownNil: on every path to block b the value v was tested and found nil.
+func c18KnownNil(b *ssa.BasicBlock, v ssa.Value) bool {
+	rv := c18Root(v)
+	for _, dc := range domConds(b) {
+		if cmp, ok := decodeCond(dc.If.Cond, dc.Branch); ok && cmp.Op == token.EQL {
+			if (isNilConst(cmp.Y) && c18Root(cmp.X) == rv) || (isNilConst(cmp.X) && c18Root(cmp.Y) == rv) {
+				return true
+			}
+		}
+	}
+	return false
+}
